@@ -2,6 +2,7 @@
 import os
 import common as c
 import thrift_rt as rt
+import gencheck
 
 
 def run(rep, tier, seed, replay):
@@ -40,4 +41,5 @@ def run(rep, tier, seed, replay):
     rep.assumptions = ["request sequences of the async protocols are modelled in spec/AsyncReads.tla and bound to the code by "
                        "validating every logged poll (capacity offered, bytes taken) against ThriftAsync",
                        "generated decode_async joins via the generated-code corpus (C02)"]
+    rep.cov.update(gencheck.add_tagged(rep, "C12", tier, seed))
     return "model_checking"
